@@ -205,19 +205,6 @@ theorem jsonLike_nest : ∀ (sh : List Nat) (d : List Scalar), (nest sh d).jsonL
     simp only [nest, PyVal.jsonLike]
     exact jsonLikeL_map (nest rest) (jsonLike_nest rest) _
 
-mutual
-theorem jsonLike_of_plain : ∀ v : PyVal, v.plain = true → v.jsonLike = true
-  | .none, _ | .bool _, _ | .int _, _ | .float _, _ | .str _, _ => rfl
-  | .list xs, h => by
-    simp only [PyVal.plain] at h
-    simpa [PyVal.jsonLike] using jsonLikeL_of_plainL xs h
-theorem jsonLikeL_of_plainL : ∀ xs : List PyVal, PyVal.plainL xs = true → PyVal.jsonLikeL xs = true
-  | [], _ => rfl
-  | x :: xs, h => by
-    simp only [PyVal.plainL, Bool.and_eq_true] at h
-    simp [PyVal.jsonLikeL, jsonLike_of_plain x h.1, jsonLikeL_of_plainL xs h.2]
-end
-
 theorem jsonLike_ms_atom (x : PyVal) (h : x.atom = true) : (makeSerializable x).jsonLike = true := by
   cases x <;> simp_all [PyVal.atom, makeSerializable, PyVal.jsonLike]
 
@@ -228,18 +215,16 @@ theorem jsonLikeL_ms_atoms : ∀ xs : List PyVal, xs.all PyVal.atom = true →
     simp only [List.all_cons, Bool.and_eq_true] at h
     simp [makeSerializableL, PyVal.jsonLikeL, jsonLike_ms_atom x h.1, jsonLikeL_ms_atoms xs h.2]
 
-theorem jsonLike_noneToStr (a : PyVal) (h : sliceComp a = true) : (noneToStr a).jsonLike = true := by
-  cases a <;> simp_all [sliceComp, noneToStr, PyVal.jsonLike]
-
 mutual
 theorem jsonLike_ms (f : UInt64 → UInt64) : ∀ v : PyVal, v.WF f = true → (makeSerializable v).jsonLike = true
-  | .none, _ | .bool _, _ | .int _, _ | .float _, _ | .str _, _ | .npInt _, _ | .npFloat _, _ => rfl
+  | .none, _ | .bool _, _ | .int _, _ | .float _, _ | .str _, _ | .npInt _, _ | .npFloat _, _ | .npBool _, _ => rfl
   | .arr dt sh d, _ => by
     simp only [makeSerializable, PyVal.jsonLike, PyVal.jsonLikeK, jsonLike_nest, Bool.and_true, Bool.true_and]
     exact jsonLikeL_map (fun n : Nat => PyVal.int (Int.ofNat n)) (fun _ => rfl) sh
   | .slice a b c, h => by
     simp only [PyVal.WF, Bool.and_eq_true] at h
-    simp [makeSerializable, PyVal.jsonLike, PyVal.jsonLikeK, PyVal.jsonLikeL, jsonLike_noneToStr, h.1.1, h.1.2, h.2]
+    simp [makeSerializable, PyVal.jsonLike, PyVal.jsonLikeK, PyVal.jsonLikeL, jsonLike_ms f a h.1.1,
+      jsonLike_ms f b h.1.2, jsonLike_ms f c h.2]
   | .dict kvs, h => by
     simp only [PyVal.WF, Bool.and_eq_true] at h
     simp [makeSerializable, PyVal.jsonLike, PyVal.jsonLikeK, jsonLikeK_ms f kvs h.1]
@@ -248,8 +233,17 @@ theorem jsonLike_ms (f : UInt64 → UInt64) : ∀ v : PyVal, v.WF f = true → (
     simp [makeSerializable, PyVal.jsonLike, PyVal.jsonLikeK, jsonLikeL_ms_atoms xs h.1]
   | .list xs, h => by
     simp only [PyVal.WF] at h
-    simp [makeSerializable, PyVal.jsonLike, jsonLikeL_of_plainL xs h]
-  | .npBool _, h | .tuple _, h | .opaque _, h => by simp [PyVal.WF] at h
+    simp [makeSerializable, PyVal.jsonLike, jsonLikeL_ms f xs h]
+  | .tuple xs, h => by
+    simp only [PyVal.WF] at h
+    simp [makeSerializable, PyVal.jsonLike, jsonLikeL_ms f xs h]
+  | .opaque _, h => by simp [PyVal.WF] at h
+theorem jsonLikeL_ms (f : UInt64 → UInt64) : ∀ xs : List PyVal, PyVal.WFL f xs = true →
+    PyVal.jsonLikeL (makeSerializableL xs) = true
+  | [], _ => rfl
+  | x :: xs, h => by
+    simp only [PyVal.WFL, Bool.and_eq_true] at h
+    simp [makeSerializableL, PyVal.jsonLikeL, jsonLike_ms f x h.1, jsonLikeL_ms f xs h.2]
 theorem jsonLikeK_ms (f : UInt64 → UInt64) : ∀ kvs : List (String × PyVal), PyVal.WFK f kvs = true →
     PyVal.jsonLikeK (makeSerializableK kvs) = true
   | [], _ => rfl
@@ -293,13 +287,6 @@ theorem all_dtype_mapF (f : UInt64 → UInt64) (dt : Dtype) (d : List Scalar)
   intro s hs
   simpa [dtype_mapF] using h s hs
 
-theorem strToNone_noneToStr (a : PyVal) (h : sliceComp a = true) : strToNone (noneToStr a) = a := by
-  cases a <;> simp_all [sliceComp, noneToStr, strToNone]
-
-theorem normF_noneToStr (f : UInt64 → UInt64) (a : PyVal) (h : sliceComp a = true) :
-    PyVal.normF f (noneToStr a) = noneToStr a := by
-  cases a <;> simp_all [sliceComp, noneToStr, PyVal.normF]
-
 theorem deser_ms_atom (f : UInt64 → UInt64) (x : PyVal) (h : x.atom = true) :
     deserialize (PyVal.normF f (makeSerializable x)) = .ok (PyVal.normF f x) := by
   cases x <;> simp_all [PyVal.atom, makeSerializable, PyVal.normF, deserialize, strToNone]
@@ -323,25 +310,11 @@ theorem hashableL_normFL_atoms (f : UInt64 → UInt64) : ∀ xs : List PyVal, xs
     simp [PyVal.normFL, PyVal.hashableL, hashable_normF_atom f x h.1, hashableL_normFL_atoms f xs h.2]
 
 mutual
-theorem normF_plain (f : UInt64 → UInt64) : ∀ v : PyVal, v.plain = true → (PyVal.normF f v).plain = true
-  | .none, _ | .bool _, _ | .int _, _ | .float _, _ | .str _, _ => rfl
-  | .list xs, h => by
-    simp only [PyVal.plain] at h
-    simpa [PyVal.normF, PyVal.plain] using normFL_plainL f xs h
-theorem normFL_plainL (f : UInt64 → UInt64) : ∀ xs : List PyVal, PyVal.plainL xs = true →
-    PyVal.plainL (PyVal.normFL f xs) = true
-  | [], _ => rfl
-  | x :: xs, h => by
-    simp only [PyVal.plainL, Bool.and_eq_true] at h
-    simp [PyVal.normFL, PyVal.plainL, normF_plain f x h.1, normFL_plainL f xs h.2]
-end
-
-mutual
 /-- The core of `value_roundtrip`: for ANY action `f` of the transport on float bits. -/
 theorem deser_ms (f : UInt64 → UInt64) : ∀ v : PyVal, v.WF f = true →
     deserialize (PyVal.normF f (makeSerializable v)) = .ok (PyVal.normF f v)
   | .none, _ => by simp [makeSerializable, PyVal.normF, deserialize, strToNone]
-  | .bool _, _ | .int _, _ | .float _, _ | .npInt _, _ | .npFloat _, _ => by
+  | .bool _, _ | .int _, _ | .float _, _ | .npInt _, _ | .npFloat _, _ | .npBool _, _ => by
     simp [makeSerializable, PyVal.normF, deserialize, strToNone]
   | .str s, h => by
     have hs : s ≠ "None" := by simpa [PyVal.WF] using h
@@ -354,9 +327,8 @@ theorem deser_ms (f : UInt64 → UInt64) : ∀ v : PyVal, v.WF f = true →
       parseNested_nest sh _ hlen, ofName_name, mapM_cast_self dt _ hall, natsOfPy_ints, h.1]
   | .slice a b c, h => by
     simp only [PyVal.WF, Bool.and_eq_true] at h
-    simp [makeSerializable, PyVal.normF, PyVal.normFK, PyVal.normFL, deserialize, alookup, mkSlice,
-      normF_noneToStr f _ h.1.1, normF_noneToStr f _ h.1.2, normF_noneToStr f _ h.2,
-      strToNone_noneToStr _ h.1.1, strToNone_noneToStr _ h.1.2, strToNone_noneToStr _ h.2]
+    simp [makeSerializable, PyVal.normF, PyVal.normFK, PyVal.normFL, deserialize, alookup, deserSliceData,
+      deserializeL, deser_ms f a h.1.1, deser_ms f b h.1.2, deser_ms f c h.2, Except.bind, mkSlice]
   | .dict kvs, h => by
     simp only [PyVal.WF, Bool.and_eq_true] at h
     simp [makeSerializable, PyVal.normF, PyVal.normFK, deserialize, alookup, deserDictData,
@@ -365,9 +337,19 @@ theorem deser_ms (f : UInt64 → UInt64) : ∀ v : PyVal, v.WF f = true →
     simp only [PyVal.WF, Bool.and_eq_true] at h
     simp [makeSerializable, PyVal.normF, PyVal.normFK, deserialize, alookup, deserSetData,
       deserL_ms_atoms f xs h.1, Except.bind, mkSet, hashableL_normFL_atoms f xs h.1, dedupPy_of_nodup _ h.2]
-  | .list xs, _ => by
-    simp [makeSerializable, PyVal.normF, deserialize, strToNone]
-  | .npBool _, h | .tuple _, h | .opaque _, h => by simp [PyVal.WF] at h
+  | .list xs, h => by
+    simp only [PyVal.WF] at h
+    simp [makeSerializable, PyVal.normF, deserialize, deserL_ms f xs h, Except.map]
+  | .tuple xs, h => by
+    simp only [PyVal.WF] at h
+    simp [makeSerializable, PyVal.normF, deserialize, deserL_ms f xs h, Except.map]
+  | .opaque _, h => by simp [PyVal.WF] at h
+theorem deserL_ms (f : UInt64 → UInt64) : ∀ xs : List PyVal, PyVal.WFL f xs = true →
+    deserializeL (PyVal.normFL f (makeSerializableL xs)) = .ok (PyVal.normFL f xs)
+  | [], _ => rfl
+  | x :: xs, h => by
+    simp only [PyVal.WFL, Bool.and_eq_true] at h
+    simp [makeSerializableL, PyVal.normFL, deserializeL, deser_ms f x h.1, deserL_ms f xs h.2]
 theorem deserK_ms (f : UInt64 → UInt64) : ∀ kvs : List (String × PyVal), PyVal.WFK f kvs = true →
     deserializeK (PyVal.normFK f (makeSerializableK kvs)) = .ok (PyVal.normFK f kvs)
   | [], _ => rfl
@@ -386,9 +368,9 @@ theorem boolsOfScalars_b : ∀ bs : List Bool, boolsOfScalars (bs.map Scalar.b) 
   | [] => rfl
   | b :: bs => by simp [boolsOfScalars, boolsOfScalars_b bs]
 
-theorem plainL_ints : ∀ zs : List Int, PyVal.plainL (zs.map PyVal.int) = true
+theorem WFL_ints (f : UInt64 → UInt64) : ∀ zs : List Int, PyVal.WFL f (zs.map PyVal.int) = true
   | [] => rfl
-  | z :: zs => by simp [PyVal.plainL, PyVal.plain, plainL_ints zs]
+  | z :: zs => by simp [PyVal.WFL, PyVal.WF, WFL_ints f zs]
 
 theorem normFL_intsZ (f : UInt64 → UInt64) : ∀ zs : List Int, PyVal.normFL f (zs.map PyVal.int) = zs.map PyVal.int
   | [] => rfl
@@ -400,7 +382,10 @@ theorem map_mapF_b (f : UInt64 → UInt64) : ∀ bs : List Bool, (bs.map Scalar.
     have ih := map_mapF_b f bs
     simp only [List.map_cons, Scalar.mapF, ih]
 
-theorem sliceComp_optInt (a : Option Int) : sliceComp (optIntToPy a) = true := by cases a <;> rfl
+theorem WF_optInt (f : UInt64 → UInt64) (a : Option Int) : (optIntToPy a).WF f = true := by cases a <;> rfl
+
+theorem normF_optInt (f : UInt64 → UInt64) (a : Option Int) : PyVal.normF f (optIntToPy a) = optIntToPy a := by
+  cases a <;> rfl
 
 theorem pyToOptInt_optInt (a : Option Int) : pyToOptInt (optIntToPy a) = some a := by cases a <;> rfl
 
@@ -408,9 +393,9 @@ theorem WF_adToPy (f : UInt64 → UInt64) (ad : ActiveDims) : (adToPy ad).WF f =
   cases ad with
   | none => rfl
   | idx z => rfl
-  | list zs => simp [adToPy, PyVal.WF, plainL_ints]
+  | list zs => simp [adToPy, PyVal.WF, WFL_ints]
   | mask bs => simp [adToPy, PyVal.WF, prodL, Scalar.dtype]
-  | slice a b c => simp [adToPy, PyVal.WF, sliceComp_optInt]
+  | slice a b c => simp [adToPy, PyVal.WF, WF_optInt]
 
 theorem normF_adToPy (f : UInt64 → UInt64) (ad : ActiveDims) : PyVal.normF f (adToPy ad) = adToPy ad := by
   cases ad with
@@ -418,7 +403,7 @@ theorem normF_adToPy (f : UInt64 → UInt64) (ad : ActiveDims) : PyVal.normF f (
   | idx z => rfl
   | list zs => simp [adToPy, PyVal.normF, normFL_intsZ]
   | mask bs => simp only [adToPy, PyVal.normF, map_mapF_b]
-  | slice a b c => simp [adToPy, PyVal.normF]
+  | slice a b c => simp [adToPy, PyVal.normF, normF_optInt]
 
 theorem pyToAd_adToPy (ad : ActiveDims) : pyToAd (adToPy ad) = some ad := by
   cases ad with
@@ -543,7 +528,7 @@ theorem mapF_canon_idem (s : Scalar) : (s.mapF canonNaN).mapF canonNaN = s.mapF 
 
 mutual
 theorem norm_idem : ∀ v : PyVal, v.norm.norm = v.norm
-  | .none | .bool _ | .int _ | .str _ | .npInt _ | .npBool _ | .slice _ _ _ | .tuple _ | .opaque _ => rfl
+  | .none | .bool _ | .int _ | .str _ | .npInt _ | .npBool _ | .opaque _ => rfl
   | .float b | .npFloat b => by simp [PyVal.norm, PyVal.normF, canonNaN_idem]
   | .arr dt sh d => by
     simp only [PyVal.norm, PyVal.normF, List.map_map]
@@ -551,6 +536,12 @@ theorem norm_idem : ∀ v : PyVal, v.norm.norm = v.norm
     apply List.map_congr_left
     intro s _
     exact mapF_canon_idem s
+  | .slice a b c => by
+    have h1 := norm_idem a
+    have h2 := norm_idem b
+    have h3 := norm_idem c
+    simp only [PyVal.norm] at h1 h2 h3
+    simp only [PyVal.norm, PyVal.normF, h1, h2, h3]
   | .dict kvs => by
     have := normK_idem kvs
     simp only [PyVal.norm, PyVal.normF] at *
@@ -560,6 +551,10 @@ theorem norm_idem : ∀ v : PyVal, v.norm.norm = v.norm
     simp only [PyVal.norm, PyVal.normF] at *
     rw [this]
   | .list xs => by
+    have := normL_idem xs
+    simp only [PyVal.norm, PyVal.normF] at *
+    rw [this]
+  | .tuple xs => by
     have := normL_idem xs
     simp only [PyVal.norm, PyVal.normF] at *
     rw [this]
@@ -629,9 +624,14 @@ theorem boolsOfScalars_mapF (f : UInt64 → UInt64) : ∀ d : List Scalar,
     have ih := boolsOfScalars_mapF f d
     cases s <;> simp [Scalar.mapF, boolsOfScalars, ih]
 
+theorem pyToOptInt_normF (f : UInt64 → UInt64) (a : PyVal) : pyToOptInt (PyVal.normF f a) = pyToOptInt a := by
+  cases a <;> rfl
+
 theorem pyToAd_normF (f : UInt64 → UInt64) (p : PyVal) : pyToAd (PyVal.normF f p) = pyToAd p := by
   cases p
   case list xs => simp [PyVal.normF, pyToAd, intsOfPy_normFL, boolsOfPy_normFL]
+  case tuple xs => simp [PyVal.normF, pyToAd, intsOfPy_normFL, boolsOfPy_normFL]
+  case slice a b c => simp [PyVal.normF, pyToAd, pyToOptInt_normF]
   case arr dt sh d =>
     cases dt with
     | f64 => rcases sh with _ | ⟨n, _ | ⟨n2, r⟩⟩ <;> simp [PyVal.normF, pyToAd]
